@@ -6,6 +6,7 @@ it holds for every reset state (`cvrp_reset_feasible`) and is preserved by every
 implementation states.  `D` is the distance matrix of the instance.
 -/
 import JumanjiModel.Env.CVRP.Lemmas
+import JumanjiModel.Env.CVRP.GenLemmas
 import JumanjiModel.Env.CVRP.Bounds
 open Jm CVRP
 
@@ -93,6 +94,31 @@ theorem cvrp_masked_step_feasible (c : Cfg) (D : Dist) (s : State) (a : Nat) (hm
 trajectory exactly once, every route within capacity, vehicle back at the depot -/
 theorem cvrp_complete_is_solution (maxCap : Int) (s : State) (hf : Feasible maxCap s)
     (h : allVisited s = true) : IsSolution maxCap s := CVRP.complete_is_solution maxCap s hf h
+/-- whole episodes: from ANY feasible state along ANY sequence of nodes each legal at its turn, the state after
+every prefix is feasible: load within capacity on every route, no customer served twice -/
+theorem cvrp_feasible_along_from (c : Cfg) (D : Dist) (hm : 0 ≤ c.maxCap) (s : State) (as : List Nat)
+    (hf : Feasible c.maxCap s) (hal : AllLegal c D s as) (k : Nat) :
+    Feasible c.maxCap (playS c D s (as.take k)) := CVRP.feasible_along c D hm s as hf hal k
+
+/-- whole episodes from ANY generated instance (any size, any draws of the right length) along ANY
+mask-respecting sequence (`AllMasked`: each node has its bit set in the action mask of the observation current at
+its turn): after every prefix the state is feasible; spelled out: every route's load is within the capacity and no
+customer is on the trajectory twice -/
+theorem cvrp_feasible_along (c : Cfg) (D : Dist) (n : Nat) (cd : List (List Rat)) (dd : List Int)
+    (hm : 0 ≤ c.maxCap) (hd : dd.length = n + 1) (as : List Nat)
+    (hmask : AllMasked c D (generate n c.maxCap cd dd) as) (k : Nat) :
+    Feasible c.maxCap (playS c D (generate n c.maxCap cd dd) (as.take k)) ∧
+    loadsOK (playS c D (generate n c.maxCap cd dd) (as.take k)).demands c.maxCap 0
+      (visits (playS c D (generate n c.maxCap cd dd) (as.take k))) = true ∧
+    ((visits (playS c D (generate n c.maxCap cd dd) (as.take k))).filter (· ≠ DEPOT)).Nodup := by
+  have hf0 := CVRP.generate_feasible n c.maxCap cd dd hm hd
+  have hf := CVRP.feasible_along c D hm _ as hf0 (CVRP.allMasked_allLegal c D hm as _ hf0 hmask) k
+  exact ⟨hf, hf.2.2.2.2.2.2.2.2.2.2.2.2.1, hf.2.2.2.2.2.2.2.2.2.1⟩
+
+-- a mask-respecting complete episode on a generated 2-customer instance (capacity 3: customer 2, refill, customer 1)
+example : AllMasked ⟨3, true, 1⟩ [[0, 1, 1], [1, 0, 1], [1, 1, 0]]
+    (generate 2 3 [[0, 0], [1/2, 0], [0, 1/2]] [7, 2, 3]) [2, 0, 1, 0] := by
+  simp only [AllMasked]; decide +kernel
 end Props.C06
 
 namespace Props.C08
@@ -193,6 +219,26 @@ theorem cvrp_generate_instance (n : Nat) (maxCap maxDemand : Int) (cd : List (Li
   CVRP.generate_instance n maxCap maxDemand cd dd hcon hd
 
 example : validDraw 2 3 [[0, 1/2], [1/4, 1], [1/3, 1/3]] [2, 3, 1] := by decide +kernel
+/-- `UniformGenerator`, transliterated with its draws as parameters: for EVERY size and EVERY valid draw
+(`validUniform`: coordinates with `0 ≤ x < 1`, demand draws in `[1, max_demand]`), given the constructor's check
+`max_demand ≤ max_capacity`, the generated state satisfies the certificate `GenCert`: depot demand 0, customer
+demands integers in `[1, max_demand]` and each `≤ max_capacity`, capacity = `max_capacity`, position = depot, only
+the depot visited, trajectory all depot, coordinates in `[0, 1)`.  `cvrp.instance` evaluates `GenCert` on the
+implementation's reset states (key `generate_cert`). -/
+theorem cvrp_generate_cert (n : Nat) (maxCap maxDemand : Int) (cd : List (List Rat)) (dd : List Int)
+    (hcon : maxDemand ≤ maxCap) (hd : validUniform n maxDemand cd dd) :
+    GenCert n maxCap maxDemand (generate n maxCap cd dd) :=
+  CVRP.generate_cert n maxCap maxDemand cd dd hcon hd
+
+/-- certificate ⇒ advertised invariants: the state IS `generate` of the draws read off it, demands never exceed
+the capacity, coordinates lie in the declared box, the start state is the documented one and it is feasible -/
+theorem cvrp_cert_sound (n : Nat) (maxCap maxDemand : Int) (s : State) (hm : 0 ≤ maxCap)
+    (h : GenCert n maxCap maxDemand s) :
+    s = generate n maxCap s.coords s.demands ∧ demandsOK maxCap maxDemand s ∧ coordsInBox s ∧
+    IsInitial n maxCap s ∧ Feasible maxCap s :=
+  ⟨CVRP.cert_eq_generate n maxCap maxDemand s h, CVRP.cert_sound n maxCap maxDemand s hm h⟩
+
+example : validUniform 2 3 [[0, 1/2], [1/4, 999/1000], [1/3, 1/3]] [2, 3, 1] := by decide +kernel
 end Props.C10
 
 namespace Props.C11
